@@ -30,7 +30,8 @@ CHECKS = {
             "correspondence check (composite encode+decode call) on generated graphs, arc subsets, tables, checks, both modes.",
             "Coq proof (refinement of the decimal-string coder to a mixed-radix reference, termination by pigeonhole) + "
             "extraction-based correspondence", "5 C01"),
-    "C02": ("Theorems: for ANY filter function, every window of start k-mer + strand is accepted by the filter the graph was "
+    "C02": ("(find_vertices, connect_valid_graph, connect_coding_graph, encode and LocalBioFilter.valid are REGENERATED from the current source on every run and proved equal to the model.)  "
+            "Theorems: for ANY filter function, every window of start k-mer + strand is accepted by the filter the graph was "
             "generated for (walks and encoder outputs, both modes, with/without table); for window-decidable local filters the "
             "prefixed strand passes the whole-sequence check and the strand alone passes when at least one window long or when "
             "the integer thresholds are coherent.  Two clauses of the property are REFUTED with kernel-checked witnesses and "
@@ -45,13 +46,15 @@ CHECKS = {
             "trimming (remove_useless) computes the largest min-degree-t subset and gives the same graph for t >= 2.  Tied to dsw by the "
             "correspondence check incl. (thorough) all 65536 order-2 masks x 4 thresholds.",
             "Coq proof (greatest fixed point of a monotone deflationary operator; cascade invariant) + extraction-based correspondence", "5 C03"),
-    "C04": ("Theorems: every graph returned by graph generation is well formed from every retained vertex; encoding from there is "
+    "C04": ("(connect_coding_graph, encode and the number conversions are REGENERATED from the current source on every run and proved equal to the model: C04_no_dead_end_source.)  "
+            "Theorems: every graph returned by graph generation is well formed from every retained vertex; encoding from there is "
             "total within L x |V| steps (pigeonhole on out-degree-1 runs), never meets a dead end, emits a walk; tightness "
             "(last step information carrying, product of earlier out-degrees <= message value), L / ceil(L/2) length bounds, fast "
             "mode carries L or L+1 bits.  Tied to dsw by the correspondence check with a row-read-counting ndarray proxy "
             "(reads = 2 x strand length) on graphs produced by the implementation's own generator.",
             "Coq proof + extraction-based correspondence with read counting", "5 C04"),
-    "C05": ("Theorems: the code's normal-mode encoder (decimal strings, argsort) equals an integer reference coder written from the "
+    "C05": ("(encode, decode and the number conversions are REGENERATED from the current source on every run and proved equal to the model.)  "
+            "Theorems: the code's normal-mode encoder (decimal strings, argsort) equals an integer reference coder written from the "
             "published scheme (error cases included); the reference emits a walk whose little-endian mixed-radix value is the "
             "message; digit d selects the d-th live arc / the live arc with the d-th smallest table entry (bijection); fast mode "
             "equals its reference; decoding ANY walk returns its value big-endian at the requested width.  Tied to dsw by the "
@@ -70,7 +73,8 @@ CHECKS = {
             "changes under every substitution and every C/G/T indel, and decode with the original check rejects; tied to "
             "dsw.set_vt / decode by the correspondence check incl. every single edit of sampled walks.",
             "Coq proof (sum mod 4 argument, radix rendering) + extraction-based correspondence", "5 C07"),
-    "C08": ("Theorems for every graph that graph generation can return (legal, vertex-induced, k >= 1) and every walk: EVERY single "
+    "C08": ("(path_matching and repair_dna are REGENERATED from the current source on every run and proved equal to the model, value and exception: repair_dna_source.)  "
+            "Theorems for every graph that graph generation can return (legal, vertex-induced, k >= 1) and every walk: EVERY single "
             "substitution / insertion / deletion at an interior position in [k, n-2k) is detected exactly when the corrupted "
             "strand is no longer a walk, exactly once, and the original walk is among the candidates; and for EVERY set of edits "
             "pairwise at least 3k+2 apart there is at most one detection per edit and, whenever the detection count equals the "
@@ -79,11 +83,13 @@ CHECKS = {
             "correspondence check on every single edit of sampled walks, random admissible edit sets and twin-window edits.",
             "Coq proof (state tracking on vertex-induced de Bruijn graphs, scan-loop invariants, induction over the edits) + "
             "extraction-based correspondence", "5 C08"),
-    "C09": ("Theorems: on a strand that is already a walk repair returns exactly that strand (or nothing if the supplied check "
+    "C09": ("(path_matching and repair_dna are REGENERATED from the current source on every run and proved equal to the model: C09_clean_source, C09_output_shape_source.)  "
+            "Theorems: on a strand that is already a walk repair returns exactly that strand (or nothing if the supplied check "
             "disagrees) with zero detected errors, for every shaped accessor / option / heap limit; whenever repair returns, the "
             "candidate list is strictly increasing (sorted, duplicate-free) and every candidate reproduces the supplied check.",
             "Coq proof (scan-loop invariant, sorted-insertion lemmas) + extraction-based correspondence", "5 C09"),
-    "C10": ("Theorem: for every ACGT strand at least k long, every order-k graph with in-range entries, every start vertex and "
+    "C10": ("(path_matching and repair_dna are REGENERATED from the current source on every run and proved equal to the model: C10_returns_source.)  "
+            "Theorem: for every ACGT strand at least k long, every order-k graph with in-range entries, every start vertex and "
             "option, repair_dna returns a (candidates, statistics) pair: the fuel-bounded scan loop never runs out of fuel, no "
             "subscript is out of range, and the look-up counter is at most n(1+16k^2).  Tied to dsw by the correspondence check "
             "(full result incl. the look-up counter) with the implementation under a row-read budget.",
